@@ -2611,6 +2611,110 @@ def c03_all(mir, ctx):
     return c03_retain_kernels_group(mir, ctx) + c03_update_kernel_group(mir, ctx) + c03_frame_group(mir, ctx) + c03_rows_iterator_group(mir, ctx)
 
 
+# --------------------------------------------------------------------------
+# C04: create_table -- everything it will insert is checked before the first change
+# --------------------------------------------------------------------------
+
+def c04_create_table_group(mir, ctx):
+    """create_table_with_name with its loops unrolled (one row per catalog batch, one cell per row visited), Package::insert_rows a fallible event, Column::is_valid_value an uninterpreted predicate."""
+    fn = mir.find(r"package::.*::create_table_with_name$")
+    from .mir_protocol import _confirm_create
+    lens = {}
+    it_models, what_of, coll = iter_models(ctx, lens, consistent=True)
+
+    def sval(ex, a):
+        v = ex.load(a)
+        return v.s if isinstance(v, StrV) else getattr(v, "what", repr(v))
+
+    def m_into(ex, callee, args, pc, events):
+        return [(pc, events, OpaqueV("into(%s)" % sval(ex, args[0])))]
+
+    def m_rows(ex, callee, args, pc, events):
+        return [(pc, events, OpaqueV("%s;rows=%s" % (what_of(ex, args[0]), coll(what_of(ex, args[1])))))]
+
+    def m_insert(ex, callee, args, pc, events):
+        w = what_of(ex, args[1])
+        return [(pc, events + [("insert_rows", w, "Ok")], EnumV(variant=0, fields=[TupleV([])])),
+                (pc, events + [("insert_rows", w, "Err")], EnumV(variant=1, fields=[OpaqueV("io::Error")]))]
+
+    def m_valid(ex, callee, args, pc, events):
+        b = ctx.fresh_bool("is_valid_value")
+        return [(pc, events + [("valid", what_of(ex, args[0]), what_of(ex, args[1]), b.term)], BoolV(b.term))]
+
+    def m_get(ex, callee, args, pc, events):
+        n = sval(ex, args[1])
+        return [(pc, events + [("catalog", n)], EnumV(variant=1, fields=[OpaqueV("catalog(%s)" % n)])), (pc, events + [("catalog-missing", n)], EnumV(variant=0, fields=[]))]
+
+    def m_register(ex, callee, args, pc, events):
+        return [(pc, events + [("register",)], EnumV(variant=0, fields=[]))]
+
+    def m_bool(name):
+        return lambda ex, callee, args, pc, events: [(pc, events, BoolV(ctx.fresh_bool(name).term))]
+
+    models = [
+        (r"Insert::into::<", m_into), (r"Insert::rows$|Insert::row$", m_rows), (r"Package::<F>::insert_rows$", m_insert),
+        (r"Table::columns$", lambda ex, callee, args, pc, events: [(pc, events, OpaqueV("slice:columns(%s)" % coll(what_of(ex, args[0]))))]),
+        (r"Column::is_valid_value$", m_valid), (r"BTreeMap::<String, Rc<Table>>::get::<", m_get), (r"BTreeMap::<String, Rc<Table>>::insert$", m_register),
+        (r"BTreeMap::<String, Rc<Table>>::contains_key::<", m_bool("table_exists")),
+        (r"Table::is_valid_name$|Column::is_valid_name$", m_bool("name_ok")),
+        (r"HashSet::<&str>::contains::<", m_bool("dup_name")), (r"HashSet::<&str>::insert$", lambda ex, callee, args, pc, events: [(pc, events, BoolV("true", True))]),
+        (r"as Iterator>::any::<", m_bool("has_primary_key")),
+        (r"<str as PartialEq>::eq$|<&str as PartialEq<&str>>::eq$|<String as PartialEq<str>>::eq$", m_bool("creating_the_catalog_itself")),
+    ] + it_models
+    ex = M.Exec(mir, ctx, models=models, havoc_unknown=True, max_paths=400000)
+    ex.max_revisit = 2
+    ex.no_inline = [r"Column::", r"Table::", r"Category::", r"closure", r"StringPool::", r"Value::", r"streamname::"]
+    outs = ex.run(fn, [RefV(OpaqueV("package")), OpaqueV("table_name"), OpaqueV("columns")])
+    g = Group("create_table_gate", ["package::Package::create_table_with_name (loops unrolled)", "package::Package::validate_catalog_rows (if present; inlined)"],
+              confirm=_confirm_create,
+              note="on every path of create_table on which a catalog insert or the in-memory registration is reached: before the FIRST of them, "
+                   "every batch that create_table later hands to insert_rows (one row, one cell visited per batch) was gone through completely and "
+                   "Column::is_valid_value held for every visited cell, and the catalog table each batch is checked against is the one it is "
+                   "inserted into; so a definition that the catalog tables cannot store is refused before anything changes")
+    nfirst = 0
+    for k, o in enumerate(outs):
+        evs = o.events
+        first = next((n for n, e in enumerate(evs) if e[0] in ("insert_rows", "register")), None)
+        if first is None:
+            continue
+        nfirst += 1
+        before = evs[:first]
+        inserts = [e for e in evs if e[0] == "insert_rows"]
+        for ins in inserts:
+            mm = re.match(r"^into\((.*?)\);rows=(.*)$", ins[1])
+            if not mm:
+                g.queries.append(Query("opaque_insert_%d_%d" % (k, len(g.queries)), o.pc, "unsat", note="insert_rows is handed %s, not an Insert::into(catalog).rows(batch)" % ins[1][:80]))
+                continue
+            cat, batch = mm.group(1), mm.group(2)
+            done = any(e[0] == "iter-done" and e[1].endswith("|" + batch) for e in before)
+            if not done:
+                g.queries.append(Query("unchecked_%d_%d" % (k, len(g.queries)), o.pc, "unsat",
+                                       note="the rows inserted into %s are not gone through completely before the first change (a definition %s cannot store is discovered only after earlier inserts)" % (cat, cat)))
+                continue
+            pos = next(n for n, e in enumerate(before) if e[0] == "iter-done" and e[1].endswith("|" + batch))
+            cells = [e[1] for e in before[:pos] if e[0] == "elem" and re.fullmatch(re.escape(batch) + r"\[\d+\]\[\d+\]", e[1])]
+            valids = [e for e in before if e[0] == "valid"]
+            # the columns a cell is checked against: those of the catalog it goes into (or, when the catalog itself is
+            # being created, the new table's own columns)
+            for v in valids:
+                if v[2] in cells:
+                    mc = re.search(r"columns\(catalog\((.*?)\)\)", v[1])
+                    if mc and mc.group(1) != cat:
+                        g.queries.append(Query("wrong_catalog_%d_%d" % (k, len(g.queries)), o.pc, "unsat", note="the rows inserted into %s are checked against the columns of %s" % (cat, mc.group(1))))
+            for c in cells:
+                mine = [v for v in valids if v[2] == c]
+                if not mine:
+                    g.queries.append(Query("cell_unchecked_%d_%d" % (k, len(g.queries)), o.pc, "unsat", note="a cell of the %s batch is not passed to Column::is_valid_value before the first change" % cat))
+                for v in mine:
+                    g.queries.append(Query("cell_invalid_%d_%d" % (k, len(g.queries)), o.pc + [s_not(v[3])], "unsat", note="a cell the %s catalog cannot store gets past the checks to the first change" % cat))
+        if len(g.witness) < 40 and inserts:
+            g.witness.append(Query("w_%d" % k, o.pc, "sat"))
+    g.queries.append(Query("paths", ["false"], "unsat", note="%d paths reach a catalog insert" % nfirst))
+    if nfirst < 3:
+        raise EncodingError("create_table gate: only %d paths reach a catalog insert" % nfirst)
+    return [g]
+
+
 def c05_all(mir, ctx):
     return c05_update_group(mir, ctx) + c05_insert_group(mir, ctx)
 
@@ -2633,7 +2737,7 @@ def _proto(which):
 
 BUILDERS = {"C18": c18_groups, "C19": c19_groups, "C14": c14_groups, "C20": c20_all, "C09": c20_groups,
             "C01": _proto({"mutators", "finish", "close"}), "C10": _proto({"mutators", "finish"}),
-            "C15": _proto({"finish", "close"}), "C16": _proto({"readonly"}), "C08": c08_all, "C04": _proto({"reject"}), "C11": c11_all, "C07": c07_insert_gate_group, "C12": c12_all, "C05": c05_all, "C13": c13_constructor_group, "C03": c03_all}
+            "C15": _proto({"finish", "close"}), "C16": _proto({"readonly"}), "C08": c08_all, "C04": (lambda mir, ctx: _proto({"reject"})(mir, ctx) + c04_create_table_group(mir, ctx)), "C11": c11_all, "C07": c07_insert_gate_group, "C12": c12_all, "C05": c05_all, "C13": c13_constructor_group, "C03": c03_all}
 
 
 def native_confirm_c18(vals, work):
